@@ -359,7 +359,7 @@ def rule_maskset(ctx, R, F):
             okm = bool(vals) and all(v in (mk['L1'], mk['L2'], mk['L3']) for v in vals)
             R.check(okm, '%s [%s] memMask' % (b['name'], cond_str(p)), loc(n, I.f), expected='one of %s' % [mk['L1'], mk['L2'], mk['L3']], found=vals or showv(r))
     R.rule('MEM-ADDRFORM', 'every pointer formed from `scratchpad` in the executors is scratchpad + (uint32)((...) & ibc.memMask), 8 bytes are accessed, '
-           'and the masked value is at most ScratchpadSize - 8', min_instances=12)
+           'and the masked value is at most ScratchpadSize - 8', min_instances=11)
     ibm = F.func('randomx::BytecodeMachine::getScratchpadAddress')
     users = 0
     for f in F.funcs(r'^randomx::BytecodeMachine::(exe_\w+|getScratchpadAddress)$'):
@@ -398,7 +398,7 @@ def rule_maskset(ctx, R, F):
         for x in walk(f['body']):
             if x['k'] in ('Idx',) and strip_all(x['b'])['k'] == 'Ref' and strip_all(x['b']).get('id') in sp:
                 R.violation('%s: scratchpad[...]' % f['name'], loc(x, f), expected='masked form', found=show(x))
-    if users < 12:
+    if users < 11:
         raise AnalysisBroken('MEM-ADDRFORM: only %d scratchpad address formations found' % users)
 
 
